@@ -10,6 +10,11 @@ ROUND_PAIRS = [("au::Meters", "au::Kilo<au::Meters>", "1.0L/1000.0L"), ("au::Kil
                ("au::Meters", "au::Feet", "1250.0L/381.0L"), ("au::Degrees", "au::Radians", f"{PI}/180.0L"), ("au::Radians", "au::Degrees", f"180.0L/{PI}"),
                ("au::Revolutions", "au::Degrees", "360.0L"), ("au::Inches", "au::Feet", "1.0L/12.0L"), ("au::Meters", "au::Meters", "1.0L"), ("au::Miles", "au::Kilo<au::Meters>", "1.609344L"),
                ("au::Seconds", "au::Minutes", "1.0L/60.0L"), ("au::Celsius", "au::Fahrenheit", "9.0L/5.0L")]
+# QuantityPoint operands: (source point unit, rounding unit, scale factor, origin difference in the rounding unit)
+ROUND_PT_PAIRS = [("au::Celsius", "au::Kelvins", "1.0L", "273.15L"), ("au::Kelvins", "au::Celsius", "1.0L", "-273.15L"), ("au::Celsius", "au::Fahrenheit", "9.0L/5.0L", "32.0L"),
+                  ("au::Fahrenheit", "au::Celsius", "5.0L/9.0L", "-160.0L/9.0L"), ("au::Fahrenheit", "au::Kelvins", "5.0L/9.0L", "45967.0L/180.0L"), ("au::Kelvins", "au::Milli<au::Kelvins>", "1000.0L", "0.0L"),
+                  ("au::Meters", "au::Kilo<au::Meters>", "1.0L/1000.0L", "0.0L"), ("au::Celsius", "au::Celsius", "1.0L", "0.0L"), ("au::Milli<au::Celsius>", "au::Kelvins", "1.0L/1000.0L", "273.15L"),
+                  ("au::Celsius", "au::Milli<au::Kelvins>", "1000.0L", "273150.0L")]
 ROUND_REPS = ["int16_t", "int32_t", "int64_t", "float", "double"]
 PREF = {"Pico": -12, "Nano": -9, "Micro": -6, "Milli": -3, "": 0, "Kilo": 3, "Mega": 6, "Giga": 9}
 INT_MAX = {"int8_t": 127, "uint8_t": 255, "int16_t": 32767, "uint16_t": 65535, "int32_t": 2 ** 31 - 1, "uint32_t": 2 ** 32 - 1, "int64_t": 2 ** 63 - 1, "uint64_t": 2 ** 64 - 1}
@@ -33,6 +38,10 @@ def plan(tier):
             if tier == "quick" and rnd.random() < 0.35:
                 continue
             inst.append({"id": iid, "kind": "round", "code": f'vfm15::run_rounding<{src}, {rep}, {dst}>(ID, "{src}->{dst}:{rep}", {f}, nrandom, seed ^ ID);'})
+            iid += 1
+    for src, dst, f, off in ROUND_PT_PAIRS:
+        for rep in ROUND_REPS:
+            inst.append({"id": iid, "kind": "round", "code": f'vfm15::run_rounding<{src}, {rep}, {dst}, true>(ID, "point {src}->{dst}:{rep}", {f}, nrandom, seed ^ ID, {off});'})
             iid += 1
     inv_cases = []
     for sp, se in PREF.items():
@@ -205,7 +214,7 @@ def run(chk, which="C15"):
             if p["expect"] == "accept" and r["rejected"]:
                 chk.violation(f'C15|refused|{p["name"]}|cfg={cs}', msg=f'{cs}: {p["name"]} is rejected although it must compile: {(r["msgs"] or ["?"])[0][:160]}')
     chk.add_evals(evals + nprobe, len(distinct))
-    chk.cov["rule"] = ("rounding: all integers in +-2^16 and boundary/random floats (k, k+1/2, k+-ulp) x unit pairs with integer, reciprocal, rational and irrational ratios x 5 reps, judged against the exact value with a "
+    chk.cov["rule"] = ("rounding: all integers in +-2^16 and boundary/random floats (k, k+1/2, k+-ulp) x unit pairs with integer, reciprocal, rational and irrational ratios x 5 reps, for quantities and for quantity points (10 point-unit pairs incl. equal scale / different origin), judged against the exact value with a "
                        "band of 8 eps|v| for the conversion; inversion: every time/frequency prefix pair among pico..giga with integer K, n = 1..1000 exhaustively + values around K, explicit and implicit rep forms, "
                        "inverse(inverse(n)) == n; cmath wrappers: neighbourhood oracle (bitwise std::f on one of the <=5 (or 25) neighbours of the exactly converted operands); refusal probes for every integral rep "
                        "incl. 8/16-bit; distinct_nontrivial = distinct instances + probe kinds")
